@@ -392,7 +392,7 @@ func ruleDeadFieldRead(c *Ctx, r *R) {
 }
 
 func init() {
-	register(&Rule{ID: "DEAD-local-mutation", Props: []string{"C12", "C02"}, Min: 5,
+	register(&Rule{ID: "DEAD-local-mutation", Props: []string{"C12", "C02"}, Min: 2,
 		Doc: "G (census, the dead-store form of Engler's contradictions): a method with a pointer receiver that only writes fields of its receiver, called on a local variable that nothing reads afterwards, changes a copy that is thrown away - the author meant to change the object the copy was taken from. For every call in package otto of a module method with a pointer receiver on a local variable: after the call, on some path, the variable is read, passed on, or its address is used; otherwise the call is reported. `date.SetNaN()` on the local copy of a Date's payload (where `obj.value = invalidDateObject` was meant) leaves the Date valid although the setter returned NaN",
 		Run: ruleDeadLocalMutation})
 }
